@@ -10,7 +10,7 @@ class ProtoInvalid(Exception):
     pass
 
 
-def parse_proto(text):
+def parse_proto(text, resolve=True):
     """Returns {'messages': {name: [field]}, 'enums': {name: [(name, number)]}}; raises ProtoInvalid for text that is not valid proto3."""
     toks = re.findall(r"[A-Za-z_][A-Za-z0-9_.]*|\d+|'[^']*'|\"[^\"]*\"|[{}=;]", text)
     pos = 0
@@ -35,6 +35,7 @@ def parse_proto(text):
         raise ProtoInvalid("syntax is not proto3")
     take(";")
     messages, enums = {}, {}
+    package, imports = "", []
 
     def field(in_oneof):
         label = "one"
@@ -59,10 +60,10 @@ def parse_proto(text):
     while peek() is not None:
         t = take()
         if t == "package":
-            take()
+            package = take()
             take(";")
         elif t == "import":
-            take()
+            imports.append(take().strip("'\""))
             take(";")
         elif t == "enum":
             name = take()
@@ -107,11 +108,40 @@ def parse_proto(text):
             pass
         else:
             raise ProtoInvalid("unexpected token %r at top level" % t)
-    for m, fs in messages.items():
-        for f in fs:
-            if f["type"] not in SCALARS and f["type"] not in messages and f["type"] not in enums:
-                raise ProtoInvalid("message %s field %s: unknown type %s" % (m, f["name"], f["type"]))
-    return {"messages": messages, "enums": enums}
+    if resolve:
+        for m, fs in messages.items():
+            for f in fs:
+                if f["type"] not in SCALARS and f["type"] not in messages and f["type"] not in enums:
+                    raise ProtoInvalid("message %s field %s: unknown type %s" % (m, f["name"], f["type"]))
+    return {"messages": messages, "enums": enums, "package": package, "imports": imports}
+
+
+def parse_proto_set(files):
+    """files: {file name: text}. Parses every file and resolves every field type the way protoc does: relative to the
+    package of the using file (innermost scope first), among the definitions of the file itself and of the files it imports.
+    Returns {file: parsed}; raises ProtoInvalid for an unresolvable reference or a missing import."""
+    parsed = {fn: parse_proto(tx, resolve=False) for fn, tx in files.items()}
+    for fn, p in parsed.items():
+        visible = [fn]
+        for imp in p["imports"]:
+            if imp not in parsed:
+                raise ProtoInvalid("%s imports %s which was not generated" % (fn, imp))
+            visible.append(imp)
+        defined = set()
+        for v in visible:
+            q = parsed[v]["package"]
+            for n in list(parsed[v]["messages"]) + list(parsed[v]["enums"]):
+                defined.add((q + "." if q else "") + n)
+        scope = p["package"].split(".") if p["package"] else []
+        for m, fs in p["messages"].items():
+            for f in fs:
+                t = f["type"]
+                if t in SCALARS:
+                    continue
+                cands = [".".join(scope[:k] + [t]) for k in range(len(scope), -1, -1)]
+                if not any(c in defined for c in cands):
+                    raise ProtoInvalid("%s: message %s field %s: \"%s\" is not defined (tried %s)" % (fn, m, f["name"], t, ", ".join(cands)))
+    return parsed
 
 
 def schema_json(parsed, name, depth=0):
@@ -129,6 +159,17 @@ def schema_json(parsed, name, depth=0):
             kind, sub = t, []
         res.append({"num": f["num"], "label": f["label"], "kind": kind, "sub": sub, "oneof": f["oneof"]})
     return res
+
+
+def proto_files(asn_files):
+    """{generated file name: .proto text} for modules resolved together."""
+    vlib.cargo_build()
+    exe = os.path.join(vlib.bin_dir(), "frontend")
+    p = subprocess.run([exe, "proto"] + list(asn_files), stdout=subprocess.PIPE, stderr=subprocess.PIPE, text=True, timeout=300)
+    rows = [json.loads(l) for l in p.stdout.splitlines() if l.strip()]
+    if p.returncode != 0 or not rows or "error" in rows[0]:
+        raise ToolError("frontend proto failed: %s %s" % (p.stderr[-500:], rows[:1]))
+    return {r["file"]: r["proto"] for r in rows}
 
 
 def proto_text(asn_file):
